@@ -83,6 +83,8 @@ def gen_case(r, index, tier):
                         "mode": r.choice(["dominant", "ties", "empty", "random", "extract"]), "t": _gen_t(r)})
         elif k < 80:
             ops.append({"op": "persist", "on": on})
+            if r.chance(0.6):
+                ops.append({"op": r.choice(["reload", "reload", "restart"])})
         elif k < 84:
             ops.append({"op": "restart"})
         elif k < 87:
@@ -93,10 +95,18 @@ def gen_case(r, index, tier):
             ops.append({"op": "loop", "on": on, "t": _gen_t(r), "cap": r.randint(2, 5),
                         "stub_seed": r.below(1 << 30) if r.chance(0.5) else None})
     # faults
-    if r.chance(0.25):
-        cands = [i for i, o in enumerate(ops) if o["op"] in ("refine", "uniform", "griddify", "loop")]
+    if r.chance(0.3):
+        cands = [i for i, o in enumerate(ops) if o["op"] in ("refine", "uniform", "griddify", "loop", "must")]
         if cands:
-            ops[r.choice(cands)]["fault"] = {"kind": "abort", "line_event": r.randint(1, r.choice([30, 300, 3000]))}
+            i = r.choice(cands)
+            ops[i]["fault"] = {"kind": "abort", "line_event": r.randint(1, r.choice([10, 30, 300, 3000]))}
+            if r.chance(0.7):
+                # the caller catches the interruption and simply tries again on the same allocation
+                retry = {k: v for k, v in ops[i].items() if k != "fault"}
+                ops.insert(i + 1, retry)
+                if r.chance(0.5) and ops[i]["op"] in ("refine", "must"):
+                    # ... after having asked the same question at another threshold before
+                    ops.insert(i, {"op": "must", "on": ops[i]["on"], "t": _gen_t(r)})
     if r.chance(0.2):
         cands = [i for i, o in enumerate(ops) if o["op"] == "persist"]
         if cands:
@@ -503,6 +513,10 @@ def _stub_optimise(alloc, seed, mode, t):
     return tree
 
 
+class _Skip(Exception):
+    pass
+
+
 def run_case(case):
     case = _norm_case(case)
     root = os.path.abspath(os.environ.get("FRAME_REPO", "/repo")) + os.sep
@@ -553,6 +567,7 @@ def run_case(case):
     persisted = None  # (path, snapshot)
     npersist = 0
     refine_ops = 0
+    last_aborted_target = None
 
     def run_op(fn, fault):
         if fault is not None and fault["kind"] == "abort":
@@ -568,7 +583,13 @@ def run_case(case):
     for seq, o in enumerate(case["ops"]):
         kind = o["op"]
         ops_count[kind] = ops_count.get(kind, 0) + 1
-        A = pool[o.get("on", 0) % len(pool)]
+        if o.get("fault") is None and seq > 0 and case["ops"][seq - 1].get("fault", {}).get("kind") == "abort" and last_aborted_target is not None \
+                and {k: v for k, v in case["ops"][seq - 1].items() if k != "fault"} == o and last_aborted_target in pool:
+            A = last_aborted_target   # the retry addresses the allocation whose operation was interrupted
+        else:
+            A = pool[o.get("on", 0) % len(pool)]
+        if o.get("fault", {}).get("kind") == "abort":
+            last_aborted_target = A
         old = _snapshot(A)
         tol = Tol(family, old)
         fault = o.get("fault")
@@ -609,7 +630,9 @@ def run_case(case):
                         entry["cells_after"] = len(new)
             elif kind == "must":
                 t = o["t"]
-                pred = A.must_be_refined(t)
+                st, pred = run_op(lambda: A.must_be_refined(t), fault)
+                if st == "aborted":
+                    raise _Skip("aborted at " + str(pred))
                 want = any(_should_split(p, t) for p in old)
                 entry["pred"] = pred
                 if pred != want:
@@ -698,7 +721,8 @@ def run_case(case):
                 probe("stub_" + o["mode"])
             elif kind == "persist":
                 npersist += 1
-                path = "alloc_%d.yaml" % npersist
+                # the loop checkpoints to one file name, as a real refine-until-stable loop would
+                path = "alloc_checkpoint.yaml"
                 if fault is not None and fault["kind"] != "abort":
                     configured[fault["kind"]] = configured.get(fault["kind"], 0) + 1
                     if fault["kind"] == "enoent":
@@ -721,19 +745,24 @@ def run_case(case):
                                      "key": {"op": "persist", "fault": fk}, "detail": {"path": path}})
                 if ok and len(fs.fired) == nfired:
                     persisted = (path, old)
+                else:
+                    persisted = None   # the write is not atomic: a failed checkpoint destroys the previous one
                 # the plan entry may not have fired (document shorter than the byte offset): drop it
                 fs.plan = []
-            elif kind == "restart":
+            elif kind in ("restart", "reload"):
                 if persisted is None:
                     outcome = "skipped(nothing persisted)"
                 else:
                     path, snap = persisted
-                    pool = []  # every object of the crashed process is gone
-                    _model_fixed.clear()  # ... and so are the fixed flags: the document does not carry them
+                    if kind == "restart":
+                        pool = []  # every object of the crashed process is gone
+                        _model_fixed.clear()  # ... and so are the fixed flags: the document does not carry them
+                        fired["restart"] = fired.get("restart", 0) + 1
+                    else:
+                        probe("checkpoint_reloaded_in_process")
                     B = _A.Allocation(path)
                     _model_fixed[id(B)] = set()
                     new = _snapshot(B)
-                    fired["restart"] = fired.get("restart", 0) + 1
                     if any(c.depth > 0 for c in snap):
                         probe("restart_with_depth_gt_0")
                     if any(c.fixed for c in snap):
@@ -743,11 +772,13 @@ def run_case(case):
                     same = len(new) == len(snap) and all(
                         a.key() == b.key() and a.alloc == b.alloc and a.depth == b.depth for a, b in zip(snap, new))
                     if not same:
-                        viol.append({"property": "C02", "clause": "allocation reloaded after restart differs from "
-                                                                  "the one persisted", "key": {"op": "restart"},
-                                     "detail": {"persisted": [_fmt(c) for c in snap[:6]],
-                                                "reloaded": [_fmt(c) for c in new[:6]]}})
-                    pool = [B]
+                        for prop_, clause_ in (("C02", "allocation reloaded after restart differs from the one persisted"),
+                                               ("C12", "refinement loop resumed from its checkpoint does not see the cells and "
+                                                       "depths it persisted")):
+                            viol.append({"property": prop_, "clause": clause_, "key": {"op": kind},
+                                         "detail": {"persisted": [_fmt(c) for c in snap[:6]],
+                                                    "reloaded": [_fmt(c) for c in new[:6]]}})
+                    pool = [B] if kind == "restart" else pool + [B]
             elif kind == "loop":
                 t = o["t"]
                 cur = A
@@ -788,6 +819,8 @@ def run_case(case):
                         probe("loop_ran_2plus_iterations")
                     if it > 0:
                         pool.append(B)
+        except _Skip as e:
+            outcome = str(e)
         except abortmod.SimAbort:
             raise
         except Exception as e:
